@@ -959,9 +959,9 @@ Proof. vm_compute. reflexivity. Qed.
 Lemma lisp_kw_dot_accepted pf : read_string pf Lisp (write (EKw None kw_a_dot_b)) = ROk (EKw None kw_a_dot_b).
 Proof. vm_compute. reflexivity. Qed.
 
-Lemma lisp_float_exp_reads_int pf :
-  read_string pf Lisp (write (EFloat tok_1e23)) = ROk (EInt 100000000000000000000000).
-Proof. vm_compute. reflexivity. Qed.
+Lemma lisp_float_exp_reads_float pf :
+  pf tok_1e23 = Some tok_1e23 -> read_string pf Lisp (write (EFloat tok_1e23)) = ROk (EFloat tok_1e23).
+Proof. intro E. vm_compute. vm_compute in E. rewrite E. reflexivity. Qed.
 
 Lemma edn_float_exp_refuted : exists tok, forall pf, read_string pf Edn (write (EFloat tok)) = ROk (EInt 1).
 Proof. exists tok_1e23. exact edn_float_exp_reads_int. Qed.
@@ -969,9 +969,9 @@ Lemma edn_kw_dot_refuted :
   exists nm, forall pf, read_string pf Edn (write (EKw None nm)) = RErr 1
                         /\ read_string pf Lisp (write (EKw None nm)) = ROk (EKw None nm).
 Proof. exists kw_a_dot_b. intro pf. split; [apply edn_kw_dot_rejected|apply lisp_kw_dot_accepted]. Qed.
-Lemma lisp_float_exp_refuted :
-  exists tok, forall pf, read_string pf Lisp (write (EFloat tok)) = ROk (EInt (10 ^ 23)).
-Proof. exists tok_1e23. exact lisp_float_exp_reads_int. Qed.
+Lemma lisp_float_exp_roundtrip :
+  exists tok, forall pf, pf tok = Some tok -> read_string pf Lisp (write (EFloat tok)) = ROk (EFloat tok).
+Proof. exists tok_1e23. exact lisp_float_exp_reads_float. Qed.
 
 (** non-vacuity of the guard: a nested value with every constructor *)
 Definition sample : edn :=
